@@ -2,6 +2,7 @@ import St4sd.Lemmas.C04Tree
 import St4sd.Lemmas.C04Flatten
 import St4sd.Lemmas.C04User
 import St4sd.Lemmas.C04Conf
+import St4sd.Model.TreeArray
 /-!
 # C04 — Resolved component configuration follows the documented layering order
 
@@ -1218,5 +1219,125 @@ theorem stage_blueprint_repeats_platform_global (d : Desc) (P : S) (i : Nat) :
   · simp [stageBpBaseRaw, repeatsPlatformGlobal]
   · intro hf
     simp [stageBpBaseRaw, repeatsPlatformGlobal, hf]
+
+/-! ## Array-indexed references (`Model/TreeArray.lean`) -/
+
+/-- **occurrences_resolve_independently**: the resolved text of `a ++ b` is the resolved text of `a` followed
+by the resolved text of `b` - what stands before an occurrence never changes what it is replaced by. -/
+theorem resolveSegs_append (f : Nat) (ctx : Fields) : ∀ (a b : List Seg) (u v : S),
+    resolveSegs f ctx a = .ok u → resolveSegs f ctx b = .ok v → resolveSegs f ctx (a ++ b) = .ok (u ++ v) := by
+  intro a
+  induction a with
+  | nil => intro b u v ha hb; simp [resolveSegs] at ha; subst ha; simpa using hb
+  | cons s r ih =>
+    intro b u v ha hb
+    simp only [resolveSegs] at ha
+    cases hs : segValue f ctx s with
+    | error e => rw [hs] at ha; cases ha
+    | ok w =>
+      rw [hs] at ha
+      cases hr : resolveSegs f ctx r with
+      | error e => rw [hr] at ha; cases ha
+      | ok u' =>
+        rw [hr] at ha
+        cases ha
+        simp only [List.cons_append, resolveSegs, hs, ih b u' v hr hb, List.append_assoc]
+
+/-- **occurrence_value_position_independent**: in a text that resolves, the occurrence at ANY position is
+replaced by `segValue` of that occurrence alone (a function of the variables and of the occurrence - not of
+the text before it, not of the text behind it), and the rest of the text resolves as it does on its own. -/
+theorem occurrence_value_position_independent (f : Nat) (ctx : Fields) : ∀ (a b : List Seg) (s : Seg) (r : S),
+    resolveSegs f ctx (a ++ s :: b) = .ok r →
+    ∃ u w v, resolveSegs f ctx a = .ok u ∧ segValue f ctx s = .ok w ∧ resolveSegs f ctx b = .ok v ∧
+      r = u ++ w ++ v := by
+  intro a
+  induction a with
+  | nil =>
+    intro b s r h
+    simp only [List.nil_append, resolveSegs] at h
+    cases hs : segValue f ctx s with
+    | error e => rw [hs] at h; cases h
+    | ok w =>
+      rw [hs] at h
+      cases hb : resolveSegs f ctx b with
+      | error e => rw [hb] at h; cases h
+      | ok v => rw [hb] at h; cases h; exact ⟨[], w, v, rfl, rfl, rfl, by simp⟩
+  | cons t a ih =>
+    intro b s r h
+    simp only [List.cons_append, resolveSegs] at h
+    cases ht : segValue f ctx t with
+    | error e => rw [ht] at h; cases h
+    | ok tv =>
+      rw [ht] at h
+      cases hr : resolveSegs f ctx (a ++ s :: b) with
+      | error e => rw [hr] at h; cases h
+      | ok r' =>
+        rw [hr] at h
+        cases h
+        obtain ⟨u, w, v, hu, hw, hv, hr'⟩ := ih b s r' hr
+        refine ⟨tv ++ u, w, v, ?_, hw, hv, ?_⟩
+        · simp only [resolveSegs, ht, hu]
+        · rw [hr']; simp [List.append_assoc]
+
+/-- **plain_then_indexed**: a text that uses a variable plainly and LATER with an array index resolves to
+the whole value at the plain occurrence and to the `i`-th word of the same value at the indexed one, the
+constant texts around them untouched. -/
+theorem plain_then_indexed (f : Nat) (ctx : Fields) (x v w t1 t2 t3 : S) (i : Nat)
+    (hv : varValue f ctx x = .ok v) (hw : (splitWords v)[i]? = some w) :
+    resolveSegs f ctx [.text t1, .ref x none, .text t2, .ref x (some (.lit i)), .text t3]
+      = .ok (t1 ++ v ++ t2 ++ w ++ t3) := by
+  simp [resolveSegs, segValue, idxValue, hv, hw]
+
+/-- the same with the index taken from another variable, and in the opposite order -/
+theorem indexed_by_variable_then_plain (f : Nat) (ctx : Fields) (x y v w d t1 t2 t3 : S) (i : Nat)
+    (hv : varValue f ctx x = .ok v) (hy : varValue f ctx y = .ok d) (hd : digitsToNat? d = some i)
+    (hw : (splitWords v)[i]? = some w) :
+    resolveSegs f ctx [.text t1, .ref x (some (.var y)), .text t2, .ref x none, .text t3]
+      = .ok (t1 ++ w ++ t2 ++ v ++ t3)
+    ∧ resolveSegs f ctx [.text t1, .ref x none, .text t2, .ref x (some (.var y)), .text t3]
+      = .ok (t1 ++ v ++ t2 ++ w ++ t3) := by
+  simp [resolveSegs, segValue, idxValue, hv, hy, hd, hw]
+
+/-- an undefined array variable / index variable is an error, never left in place -/
+theorem unknown_array_variable_is_error (f : Nat) (ctx : Fields) (x : S) (n : Nat) (h : get ctx x = none) :
+    segValue f ctx (.ref x (some (.lit n))) = .error (.unknownVariable x)
+    ∧ ∀ z, segValue f ctx (.ref z (some (.var x))) = .error (.unknownVariable x) := by
+  simp [segValue, idxValue, varValue, h]
+
+theorem segValue_congr (ctx ctx' : Fields) (h : ∀ x, get ctx x = get ctx' x) (f : Nat) (s : Seg) :
+    segValue f ctx s = segValue f ctx' s := by
+  have hv : ∀ x, varValue f ctx x = varValue f ctx' x := by
+    intro x; simp only [varValue, h, interp_congr ctx ctx' false h]
+  cases s with
+  | text t => rfl
+  | ref x i =>
+    cases i with
+    | none => simp only [segValue, hv]
+    | some i => cases i <;> simp only [segValue, idxValue, hv]
+
+/-- the resolution of a text with array accesses reads the variables only through `get` -/
+theorem resolveSegs_congr (ctx ctx' : Fields) (h : ∀ x, get ctx x = get ctx' x) (f : Nat) :
+    ∀ segs, resolveSegs f ctx segs = resolveSegs f ctx' segs := by
+  intro segs
+  induction segs with
+  | nil => rfl
+  | cons s r ih => simp only [resolveSegs, segValue_congr ctx ctx' h, ih]
+
+/-- **flatten_preserves_array_resolution**: a text with array-indexed references resolves in the flattened
+description (what the runtime executes) to exactly what it resolves to in the original one. -/
+theorem flatten_preserves_array_resolution (d : Desc) (P : S) (c : Comp) (hc : c ∈ d.comps) (f : Nat)
+    (segs : List Seg) :
+    resolveSegs f (varsOf (flattenRaw d P) P (flatCompRaw P c)) segs = resolveSegs f (varsOf d P c) segs :=
+  resolveSegs_congr _ _ (flatten_preserves_layering d P c hc) f segs
+
+/-- non-vacuity: `--all %(m)s --mine %(m)s[%(w)s]` with m = `h4 h6 h8`, w = 1 is read as five occurrences and
+resolves to `--all h4 h6 h8 --mine h6`; with the two uses swapped to `--mine h6 --all h4 h6 h8` -/
+example : interpA 8 [("m".toList, .str "h4 h6 h8".toList), ("w".toList, .int 1)]
+    "--all %(m)s --mine %(m)s[%(w)s]".toList = .ok "--all h4 h6 h8 --mine h6".toList := by rfl
+example : interpA 8 [("m".toList, .str "h4 h6 h8".toList), ("w".toList, .int 1)]
+    "--mine %(m)s[%(w)s] --all %(m)s".toList = .ok "--mine h6 --all h4 h6 h8".toList := by rfl
+example : parseSegs 30 "a %(m)s b %(m)s[2]".toList
+    = some [.text "a ".toList, .ref "m".toList none, .text " b ".toList, .ref "m".toList (some (.lit 2)),
+            .text []] := by decide
 
 end St4sd.C04
